@@ -329,7 +329,7 @@ func checkDefs() map[string]*CheckDef {
 					{Name: "several-validated-fields", Pkg: prc, Entry: "VerifC18SeveralValidated", MustCover: []string{"one of several validated fields violates its constraint"}},
 					{Name: "same-tag-two-configurations", Pkg: prc, Entry: "VerifC18TwoConfigurations", MustCover: []string{"same tag under two configurations"}},
 					{Name: "several-expressions", Pkg: prc, Entry: "VerifC18MultiExpr", MustCover: []string{"several expressions in one tag"}},
-					{Name: "struct-validation", Pkg: prc, Entry: "VerifC18ValidateStruct", MustCover: []string{"struct constraint violated", "struct constraint satisfied", "only the required nested struct is empty"}},
+					{Name: "struct-validation", Pkg: prc, Entry: "VerifC18ValidateStruct", MustCover: []string{"struct constraint violated", "struct constraint satisfied", "only the required nested struct is empty", "validated struct pointer left nil"}},
 				}
 			},
 			LevelText: "Bounded symbolic model checking of the glue in go-kid/ioc's own code: (a) the nine real processor objects plus extra user processors of symbolic class and 64-bit Order are sorted by the real SortOrderedComponents and configQuote < expression < {value, properties} < validate always holds; (b) real configQuote then expression then value processors on pre #{e1 ${k} e2} post: the text compiled is exactly the substituted text and the field receives pre+result+post; (c) the real validate processor fails exactly when the validator rejects the bound value, for fields with and without a validate argument, required and optional; (c') a bound struct (by value and through a pointer; required scalar, required nested struct, omitempty+min) fails start-up exactly when the real validator with the documented options rejects it.",
